@@ -199,7 +199,20 @@ def find_function(rel, cls, fn):
     fs = [f for f in scope if isinstance(f, ast.FunctionDef) and f.name == fn]
     if len(fs) != 1:
         raise Untranslatable(f"function {cls}.{fn} not found (or not unique) in {rel}")
+    for d in fs[0].decorator_list:
+        if ast.unparse(d) not in ("staticmethod", "property", "abstractmethod"):
+            raise Untranslatable(f"{cls}.{fn} carries the decorator @{ast.unparse(d)}: a decorator can change what a call does (caching, wrapping)")
+    _DEFAULTS_SEEN.update(_defaults_of(cls, fs[0]))
     return fs[0]
+
+
+_DEFAULTS_SEEN = set()
+
+
+def _defaults_of(cls, fn):
+    args = fn.args.args
+    defs = [None] * (len(args) - len(fn.args.defaults)) + list(fn.args.defaults)
+    return {f"{cls}.{fn.name}({a.arg}={ast.unparse(d)})" for a, d in zip(args, defs) if d is not None}
 
 
 def check_field_ctor(rel, cls, tail):
@@ -1365,6 +1378,7 @@ def linkTheory (o : Option Int) : Except PyErr Int :=
 
 def gen_view_fns():
     _AST_CACHE.clear()
+    _DEFAULTS_SEEN.clear()
     check_message_class()
     reg = Registry()
     for rel, cls, fn, opts in SPECS:
@@ -1398,6 +1412,8 @@ def gen_view_fns():
     L.append("")
     for key in reg.order:
         L.append(reg.done[key][1])
+    L.append("/-- every default argument of the functions read by this translator, as written in the source -/")
+    L.append("def defaults : List String := [" + ", ".join('"' + d.replace('"', "'") + '"' for d in sorted(_DEFAULTS_SEEN)) + "]")
     L.append("end SCoda.Gen.View")
     return "\n".join(L) + "\n"
 
